@@ -339,3 +339,30 @@ def loops_over(b, names_wanted):
                 if w in fl:
                     found.setdefault(w, []).append((h, blocks, names))
     return found
+
+
+def skip_edges(b, h, blocks, effect_blocks):
+    """switch edges (block, target, condition) inside a loop from whose target the loop head is reachable without passing an effect
+    block, while the other side of the same switch can still reach an effect: the decisions that make an iteration skip the effect"""
+    from . import guards as G
+    out = []
+    eff = set(effect_blocks)
+    inner = [(h2, b2) for h2, b2 in b.loops() if h2 != h and h2 in blocks]
+    for bb in blocks:
+        if any(bb in b2 and bb != h2 for h2, b2 in inner):
+            pass
+        t = b.blocks[bb]["term"]
+        if t["t"] != "switch":
+            continue
+        succ = [s for s in b.succ(bb) if s in blocks or True]
+        reach_eff = {}
+        for s in succ:
+            r = b.reach_from([s], avoid={h}) if s != h else set()
+            reach_eff[s] = bool((r | {s}) & eff)
+        if not any(reach_eff.values()) or all(reach_eff.values()):
+            continue
+        for tgt, cd in G.edge_conditions(b, bb):
+            if tgt in reach_eff and not reach_eff[tgt] and b.blocks[tgt]["term"]["t"] != "unreachable":
+                # only edges that are actually on an iteration path (reachable from the loop body entry)
+                out.append((bb, tgt, cd))
+    return out
